@@ -61,7 +61,9 @@ Proof.
   intro H. inversion H; subst. unfold notify, signal, emit, with_events. cbn [events]. eexists. reflexivity.
 Qed.
 Print Assumptions C09_set_signals.
-Theorem C09_del_never_signals : forall ks now d, events (snd (api_del ks now d)) = events d.
+Definition is_signal (e : event) : bool := match e with EvSignal _ => true | _ => false end.
+Theorem C09_del_never_signals : forall ks now d,
+  filter is_signal (events (snd (api_del ks now d))) = filter is_signal (events d).
 Proof.
   induction ks as [|k r IH]; intros now d; cbn [api_del]; [reflexivity|].
   assert (W : forall d0, events (snd (write_key k None now d0)) = events d0).
@@ -70,8 +72,10 @@ Proof.
     destruct (m_val _); [reflexivity|].
     unfold ss_get. destruct (key_of _ _) as [nm ex]. destruct (fm_get _ (disk _)) as [[kr o|v]|]; reflexivity. }
   destruct (write_key k None now d) as [[m|] d1] eqn:E.
-  - specialize (IH now (del_meta k d1)). destruct (api_del r now (del_meta k d1)) as [c d2]. cbn [snd] in *.
-    rewrite IH. cbn [events del_meta with_idx]. specialize (W d). now rewrite E in W.
-  - rewrite IH. specialize (W d). now rewrite E in W.
+  - specialize (IH now (notify (PDel k) (del_meta k d1))).
+    destruct (api_del r now (notify (PDel k) (del_meta k d1))) as [c d2]. cbn [snd] in *.
+    rewrite IH. change (events (notify (PDel k) (del_meta k d1))) with (EvNotify (PDel k) :: events d1).
+    cbn [filter is_signal]. specialize (W d). rewrite E in W. cbn [snd] in W. now rewrite W.
+  - rewrite IH. specialize (W d). rewrite E in W. cbn [snd] in W. now rewrite W.
 Qed.
 Print Assumptions C09_del_never_signals.
